@@ -83,6 +83,10 @@ class Runner:
             # `shared`: the instance has no Parameter objects of its own (per_instance=False), it dispatches
             # through the class's ones
             kw = {'per_instance': False} if case.get('shared') and case.get('level') != 'class' else {}
+            if i in case.get('constants', []) and case.get('level') == 'class':
+                # a constant parameter only guards *instances*: on the class it is assigned, watched and
+                # dispatched like any other (the model makes no difference)
+                kw = dict(kw, constant=True)
             ns[f'p{i}'] = param.Event(**kw) if i in self.events else param.Integer(default=v, **kw)
         if cls is not None:
             self.cls = cls                    # the second object of a case: another instance of the same class
@@ -678,6 +682,8 @@ def gen_case(rng, prop, max_params=4, max_watchers=5, faults=False, size=8):
         no_shared_unwatch(l)
     if rng.random() < 0.08:
         extra['legacy_batch'] = True
+    if level == 'class' and rng.random() < 0.3:
+        extra['constants'] = [i for i in range(n) if i not in events and rng.random() < 0.5]
     return {**extra, 'prop': prop, 'level': level, 'shared': shared, 'inherit': inherit, 'events': events, 'bounds': bounds, 'init': init, 'watchers': watchers,
             'bodies': bodies, 'program': program}
 
@@ -752,7 +758,7 @@ def tags(case, impl):
                     t.append(f'stmt:{it["k"]}' + (':batched' if it['b'] else '') + ('' if it['res'] == 'ok' else ':raised'))
                     if it['k'] in ('set', 'key') and (it.get('new', 0) >= DYN_BASE or it.get('old', 0) >= DYN_BASE):
                         t.append('value:callable')
-    for k in ('legacy_batch', 'shared', 'inherit', 'others'):
+    for k in ('legacy_batch', 'shared', 'inherit', 'others', 'constants'):
         if case.get(k):
             t.append('case:' + k)
     return t
